@@ -3,7 +3,10 @@
 //!   `run(ops) -> Vec<String>`                      (impl trace; one line per op line)
 use crate::util::{Rng, Stats};
 
+pub mod lfo;
+pub mod modsys;
 pub mod param;
+pub mod tweener;
 pub mod units;
 
 pub fn suite_salt(name: &str) -> u64 {
@@ -15,6 +18,9 @@ pub fn gen(suite: &str, rng: &mut Rng, n: usize, thorough: bool, stats: &mut Sta
 	match suite {
 		"units" => units::gen(rng, n, thorough, stats),
 		"param" => param::gen(rng, n, thorough, stats),
+		"lfo" => lfo::gen(rng, n, thorough, stats),
+		"tweener" => tweener::gen(rng, n, thorough, stats),
+		"modsys" => modsys::gen(rng, n, thorough, stats),
 		_ => panic!("unknown suite {}", suite),
 	}
 }
@@ -23,6 +29,9 @@ pub fn run(suite: &str, ops: &[String]) -> Vec<String> {
 	match suite {
 		"units" => units::run(ops),
 		"param" => param::run(ops),
+		"lfo" => lfo::run(ops),
+		"tweener" => tweener::run(ops),
+		"modsys" => modsys::run(ops),
 		_ => panic!("unknown suite {}", suite),
 	}
 }
